@@ -558,6 +558,7 @@ inductive Op where
   | enter (h : Nat) | exitOk (h : Nat) | exitExc (h : Nat)
   | invalidate
   | arm (p : FPoint) (k : FKind)     -- environment: the next DBAPI call at `p` fails
+  | disarm                           -- environment: armed faults that did not fire are cleared
   | warm (n : Nat)                   -- environment: n other connections are opened, then all returned
   | connect                          -- the old Connection (if still open) is garbage collected,
                                      -- then a new one is checked out
@@ -592,12 +593,9 @@ def Conn.gc (c : Conn) : Conn :=
 def Conn.setAutocommit (c : Conn) : Conn × Res :=
   if c.inTransaction then (c, .invalidRequest)
   else
-    match c.connProp with
-    | (c, .ok) =>
+    andThen c.connProp fun c =>
       -- the (fake) driver commits whatever is pending when autocommit is switched on
-      let db := c.db.commit
-      ({ c with db := { db with raw := { db.raw with autocommit := true } } }, .ok)
-    | (c, r) => (c, r)
+      ({ c with db := { c.db.commit with raw := { c.db.commit.raw with autocommit := true } } }, .ok)
 
 def Conn.step (c : Conn) : Op → Conn × Res
   | .begin => c.begin
@@ -614,6 +612,7 @@ def Conn.step (c : Conn) : Op → Conn × Res
   | .exitExc h => c.exit h true
   | .invalidate => c.invalidate
   | .arm p k => ({ c with db := { c.db with faults := c.db.faults ++ [(p, k)] } }, .ok)
+  | .disarm => ({ c with db := { c.db with faults := [] } }, .ok)
   | .warm n => ({ c with db := DB.warm n c.db }, .ok)
   | .connect => (Conn.connect c.gc.db, .ok)
   | .gc => (c.gc, .ok)
